@@ -110,6 +110,11 @@ class WorldScenario(BaseScenario):
                 cfg["disabled"].append(kind)
         if self.prop in ("C12", "C01", "C09"):
             cfg["prelude"] = rng.choice([None, None, None, "survey_copy", "drillholes"])
+        if self.prop in ("C12", "C01") and cfg["two_ws"] and rng.random() < 0.3:
+            # the two files are of different format versions (drillholes are stored differently from 2.0 on)
+            cfg["version_b"] = rng.choice([v for v in (2.1, 2.0, 1.0) if v != cfg["version"]])
+            if rng.random() < 0.5:
+                cfg["version"], cfg["version_b"] = 1.0, rng.choice([2.0, 2.1])     # (plain drillholes copied into a concatenated store)
         return cfg
 
     def simplify_config(self, cfg):
@@ -122,6 +127,8 @@ class WorldScenario(BaseScenario):
             out.append({**cfg, "two_ws": False})
         if cfg.get("start") == "bytesio":
             out.append({**cfg, "start": "disk"})
+        if cfg.get("version_b") is not None:
+            out.append({**cfg, "version_b": None})
         if cfg.get("version") != 2.1:
             out.append({**cfg, "version": 2.1})
         if cfg.get("h5repack") != "absent":
@@ -148,6 +155,24 @@ class WorldScenario(BaseScenario):
                 if cfg.get("prelude"):
                     self.prelude(sim, cfg["prelude"])
                 world.open_initial()
+                if ops is None and cfg.get("version_b") is not None and cfg.get("two_ws") and rng.random() < 0.6:
+                    # opening moves of a mixed-version run: a drillhole group with a hole in the first file, stored and loaded again,
+                    # then copied into the second file, which is closed
+                    from . import build as _build
+
+                    sub = lambda: rng.getrandbits(64)  # noqa: E731
+                    world.pending = [
+                        {"id": -1, "k": "mk_group", "sub": sub(), "h": "A", "keep": False, "cls": "DrillholeGroup", "name": "dh group",
+                         "t": {"by": None, "n": 0, "fb": 0, "want": "container"}},
+                        {"id": -1, "k": "mk_object", "sub": sub(), "h": "A", "keep": False, "cls": "Drillhole",
+                         "t": {"by": 0, "n": 0, "fb": 0, "want": "groupish" if world.version("A") >= 2.0 else "container"},
+                         "args": _build.gen_object_args(rng, "Drillhole")},
+                        {"id": -1, "k": "close_reopen", "sub": sub(), "h": "A", "keep": False},
+                        {"id": -1, "k": "copy", "sub": sub(), "h": "A", "keep": False, "t": {"by": 0, "n": 0, "fb": 0, "want": "entity"},
+                         "dh": "B", "d": {"by": None, "n": 0, "fb": 0, "want": "container"}, "children": True, "clear": False},
+                        {"id": -1, "k": "close_reopen", "sub": sub(), "h": "B", "keep": False},
+                    ]
+                    sim.probe("mixed_version_opening")
                 for i in range(n_ops):
                     op = ops[i] if ops is not None else world.gen_op(rng, i)
                     executed.append(op)
